@@ -94,70 +94,59 @@ Proof.
     rewrite Forall_forall in H. apply H. assumption.
 Qed.
 
-(* ---------- scrub: small facts ---------- *)
+(* ---------- one level of the dispatch computes scrub ---------- *)
 Definition nilable (v : gv) : bool :=
   match kind_of v with KPtr | KSlice | KMap | KIface => true | _ => false end.
 
-Lemma scrub_copied_irrelevant : forall v, (forall fs, v <> VStruct fs) -> scrub true v = scrub false v.
-Proof. intros v H. destruct v; try reflexivity. exfalso. apply (H fs). reflexivity. Qed.
+Lemma depth_ptr_elem : forall y, depth y < depth (VPtr (Some y)).
+Proof. intros y. simpl. lia. Qed.
 
-Definition copy_exported (fs : list (fmeta * gv)) : list (fmeta * gv) :=
-  map (fun p => (fst p, if f_exported (fst p) then snd p else zero (snd p))) fs.
-
-Lemma scrub_copy : forall fs, scrub false (VStruct (copy_exported fs)) = scrub true (VStruct fs).
-Proof.
-  intros fs. simpl. f_equal. unfold copy_exported. rewrite map_map. apply map_ext.
-  intros [m x]. simpl. destruct (f_exported m); reflexivity.
-Qed.
-
-Lemma depth_copy : forall fs, depth (VStruct (copy_exported fs)) <= depth (VStruct fs).
-Proof.
-  intros fs. simpl. apply le_n_S. unfold copy_exported.
-  induction fs as [|p r IH]; simpl; [lia|].
-  assert (depth (if f_exported (fst p) then snd p else zero (snd p)) <= depth (snd p)).
-  { destruct (f_exported (fst p)); [lia | apply depth_zero]. }
-  lia.
-Qed.
-
-Lemma wf_copy : forall fs, wf (VStruct fs) = true -> wf (VStruct (copy_exported fs)) = true.
-Proof.
-  intros fs W. simpl in *. rewrite forallb_forall in *. intros p Hp.
-  unfold copy_exported in Hp. apply in_map_iff in Hp. destruct Hp as [q [<- Hq]]. simpl.
-  destruct (f_exported (fst q)); [apply W; assumption | apply wf_zero].
-Qed.
-
-(* ---------- one level of the dispatch computes scrub ---------- *)
 Section LevelCorrect.
   Variables (rp rs : gv -> res gv) (n : nat).
-  Hypothesis Hrp : forall v, wf v = true -> depth v < n -> nilable v = true -> rp v = Ok (scrub false v).
+  Hypothesis Hrp : forall v, wf v = true -> depth v < n -> nilable v = true -> rp v = Ok (scrub v).
   Hypothesis Hrs : forall s, wf s = true -> depth s < n -> kind_of s = KStruct ->
-                             rs (VPtr (Some s)) = Ok (VPtr (Some (scrub false s))).
+                             rs (VPtr (Some s)) = Ok (VPtr (Some (scrub s))).
 
   Definition field_spec (p : fmeta * gv) : fmeta * gv :=
-    (fst p, if negb (f_exported (fst p)) then snd p
-            else if has_secure (f_tag (fst p)) then hide (snd p)
-            else scrub false (snd p)).
+    (fst p,
+     if negb (f_exported (fst p)) then
+       (if f_embedded (fst p) then
+          match snd p with
+          | VStruct _ | VTime _ => scrub (snd p)
+          | VPtr (Some y) => match kind_of y with KStruct => VPtr (Some (scrub y)) | _ => snd p end
+          | _ => snd p
+          end
+        else snd p)
+     else if has_secure (f_tag (fst p)) then hide (snd p)
+     else scrub (snd p)).
 
   Lemma secure_field_ok : forall p, wf (snd p) = true -> depth (snd p) < n ->
     secure_field rp rs p = Ok (field_spec p).
   Proof.
-    intros [m x] W D. unfold secure_field, field_spec. simpl in *.
-    destruct (f_exported m); simpl; [|reflexivity].
-    destruct (has_secure (f_tag m)).
-    - destruct x; reflexivity.
-    - destruct x as [s|z|b|t|fs|o|o|o|o|l]; simpl; try reflexivity.
-      + (* nested struct *)
-        rewrite (Hrs (VStruct fs) W D eq_refl). reflexivity.
-      + rewrite (Hrp (VPtr o) W D eq_refl). reflexivity.
-      + rewrite (Hrp (VSlice o) W D eq_refl). reflexivity.
-      + rewrite (Hrp (VMap o) W D eq_refl). reflexivity.
-      + rewrite (Hrp (VIface o) W D eq_refl). reflexivity.
+    intros [m x] W D. unfold secure_field, field_spec. simpl fst. simpl snd. simpl in W, D.
+    destruct (f_exported m); simpl negb; cbv iota.
+    - destruct (has_secure (f_tag m)).
+      + destruct x; reflexivity.
+      + destruct x as [s|z|b|t|fs|o|o|o|o|l]; simpl; try reflexivity.
+        * rewrite (Hrs (VStruct fs) W D eq_refl). reflexivity.
+        * rewrite (Hrp (VPtr o) W D eq_refl). reflexivity.
+        * rewrite (Hrp (VSlice o) W D eq_refl). reflexivity.
+        * rewrite (Hrp (VMap o) W D eq_refl). reflexivity.
+        * rewrite (Hrp (VIface o) W D eq_refl). reflexivity.
+    - destruct (f_embedded m); [|reflexivity].
+      destruct x as [s|z|b|t|fs|o|o|o|o|l]; try reflexivity.
+      + rewrite (Hrs (VTime t) W D eq_refl). reflexivity.
+      + rewrite (Hrs (VStruct fs) W D eq_refl). reflexivity.
+      + destruct o as [y|]; [|reflexivity].
+        destruct (kind_of y) eqn:K; try reflexivity.
+        assert (Dy : depth y < n) by (pose proof (depth_ptr_elem y); lia).
+        rewrite (Hrs y W Dy K). reflexivity.
   Qed.
 
   Lemma secure_struct_ok : forall s, wf s = true -> depth s <= n -> kind_of s = KStruct ->
-    secure_struct rp rs (VPtr (Some s)) = Ok (VPtr (Some (scrub false s))).
+    secure_struct rp rs (VPtr (Some s)) = Ok (VPtr (Some (scrub s))).
   Proof.
-    intros s W D K. destruct s as [s|z|b|t|fs|o|o|o|o|l]; try discriminate; simpl; [reflexivity|].
+    intros s W D K. destruct s as [s|z|b|t|fs|o|o|o|o|l]; try discriminate; simpl secure_struct; [reflexivity|].
     rewrite (mapM_ok_map (secure_field rp rs) field_spec).
     - reflexivity.
     - intros [m x] Hin. apply secure_field_ok; simpl.
@@ -166,15 +155,11 @@ Section LevelCorrect.
   Qed.
 
   Lemma secure_struct_elem_ok : forall e, wf e = true -> depth e < n -> kind_of e = KStruct ->
-    secure_struct_elem rs e = Ok (scrub true e).
+    secure_struct_elem rs e = Ok (scrub e).
   Proof.
-    intros e W D K. unfold secure_struct_elem. destruct e as [s|z|b|t|fs|o|o|o|o|l]; try discriminate; simpl; [reflexivity|].
-    fold (copy_exported fs).
-    rewrite (Hrs (VStruct (copy_exported fs))).
-    - simpl deref. simpl bind. f_equal. apply (scrub_copy fs).
-    - apply wf_copy. assumption.
-    - pose proof (depth_copy fs). lia.
-    - reflexivity.
+    intros e W D K. unfold secure_struct_elem.
+    destruct e as [s|z|b|t|fs|o|o|o|o|l]; try discriminate; simpl; [reflexivity|].
+    rewrite (Hrs (VStruct fs) W D eq_refl). reflexivity.
   Qed.
 
   (* an element of a slice / a map value *)
@@ -183,7 +168,7 @@ Section LevelCorrect.
     | KPtr | KMap | KSlice | KIface => rp e
     | KStruct => secure_struct_elem rs e
     | KString | KOther | KArray => Ok e
-    end = Ok (scrub true e).
+    end = Ok (scrub e).
   Proof.
     intros e W D. destruct e as [s|z|b|t|fs|o|o|o|o|l]; try reflexivity.
     - apply (secure_struct_elem_ok (VStruct fs) W D eq_refl).
@@ -194,20 +179,20 @@ Section LevelCorrect.
   Qed.
 
   Lemma secure_slice_ok : forall o, wf (VSlice o) = true -> depth (VSlice o) <= n ->
-    secure_slice rp rs (VSlice o) = Ok (scrub false (VSlice o)).
+    secure_slice rp rs (VSlice o) = Ok (scrub (VSlice o)).
   Proof.
     intros [l|] W D; [|reflexivity]. simpl secure_slice.
-    rewrite (mapM_ok_map _ (scrub true)); [reflexivity|].
+    rewrite (mapM_ok_map _ scrub); [reflexivity|].
     intros e Hin. apply elem_ok.
     - eapply wf_slice_elem; eassumption.
     - pose proof (depth_slice_elem l e Hin). lia.
   Qed.
 
   Lemma secure_map_ok : forall o, wf (VMap o) = true -> depth (VMap o) <= n ->
-    secure_map rp rs (VMap o) = Ok (scrub false (VMap o)).
+    secure_map rp rs (VMap o) = Ok (scrub (VMap o)).
   Proof.
     intros [l|] W D; [|reflexivity]. simpl secure_map.
-    rewrite (mapM_ok_map _ (fun p => (fst p, scrub true (snd p)))); [reflexivity|].
+    rewrite (mapM_ok_map _ (fun p => (fst p, scrub (snd p)))); [reflexivity|].
     intros [k e] Hin. simpl.
     assert (We : wf e = true) by (eapply wf_map_elem; eassumption).
     assert (De : depth e < n) by (pose proof (depth_map_elem l k e Hin); lia).
@@ -216,7 +201,7 @@ Section LevelCorrect.
   Qed.
 
   Lemma secure_iface_ok : forall o, wf (VIface o) = true -> depth (VIface o) <= n ->
-    secure_iface rp rs (VIface o) = Ok (scrub false (VIface o)).
+    secure_iface rp rs (VIface o) = Ok (scrub (VIface o)).
   Proof.
     intros [x|] W D; [|reflexivity].
     destruct (wf_iface_elem x W) as [Wx Kx].
@@ -227,7 +212,7 @@ Section LevelCorrect.
   Qed.
 
   Lemma secure_ptr_ok : forall o, wf (VPtr o) = true -> depth (VPtr o) <= n ->
-    secure_ptr rp rs (VPtr o) = Ok (scrub false (VPtr o)).
+    secure_ptr rp rs (VPtr o) = Ok (scrub (VPtr o)).
   Proof.
     intros [x|] W D; [|reflexivity].
     assert (Wx : wf x = true) by exact W.
@@ -241,7 +226,7 @@ Section LevelCorrect.
   Qed.
 
   Lemma secure_ptr_or_ref_ok : forall v, wf v = true -> depth v <= n -> nilable v = true ->
-    secure_ptr_or_ref rp rs v = Ok (scrub false v).
+    secure_ptr_or_ref rp rs v = Ok (scrub v).
   Proof.
     intros v W D N. destruct v; try discriminate.
     - destruct o; [apply secure_ptr_ok; assumption | reflexivity].
@@ -252,9 +237,9 @@ Section LevelCorrect.
 End LevelCorrect.
 
 Theorem level_correct : forall n,
-  (forall v, wf v = true -> depth v < n -> nilable v = true -> ptr_or_ref_at n v = Ok (scrub false v)) /\
+  (forall v, wf v = true -> depth v < n -> nilable v = true -> ptr_or_ref_at n v = Ok (scrub v)) /\
   (forall s, wf s = true -> depth s < n -> kind_of s = KStruct ->
-             struct_at n (VPtr (Some s)) = Ok (VPtr (Some (scrub false s)))).
+             struct_at n (VPtr (Some s)) = Ok (VPtr (Some (scrub s)))).
 Proof.
   induction n as [|n [IHp IHs]].
   - split; intros; lia.
@@ -269,34 +254,56 @@ Qed.
 Lemma hide_hidden : forall x, hidden (hide x).
 Proof. intros x. destruct x; try (right; apply (is_zero_zero _)). left. reflexivity. Qed.
 
-Lemma scrub_sec_hidden : forall v c x, sec_at (scrub c v) x -> hidden x.
+(* sec_at below a struct-kind value that is a time.Time: nothing *)
+Lemma sec_at_time : forall t x, ~ sec_at (VTime t) x.
+Proof. intros t x S. inversion S. Qed.
+
+Lemma scrub_sec_hidden : forall v x, sec_at (scrub v) x -> hidden x.
 Proof.
-  induction v as [s|z|b|t|fs IH| |y IH| |l IH| |l IH| |y IH|l IH] using gv_ind'; intros c x S; simpl in S;
+  induction v as [s|z|b|t|fs IH| |y IH| |l IH| |l IH| |y IH|l IH] using gv_ind'; intros x S; simpl in S;
     try (inversion S; fail).
   - (* struct *)
     rewrite Forall_forall in IH.
-    inversion S as [fs' m y Hin He Hs | fs' m y z Hin He Hs Hz | | | |]; subst.
-    + apply in_map_iff in Hin. destruct Hin as [q [Hq Hin]]. inversion Hq; subst. simpl.
-      rewrite He, Hs. simpl. apply hide_hidden.
-    + apply in_map_iff in Hin. destruct Hin as [q [Hq Hin]]. inversion Hq; subst.
-      rewrite He, Hs in Hz. simpl in Hz. eapply IH; eassumption.
+    inversion S as [fs' m y Hin He Hs | fs' m y z Hin He Hs Hz | fs' m y z Hin He Hm Hk Hz
+                    | fs' m y z Hin He Hm Hk Hz | | | |]; subst;
+      apply in_map_iff in Hin; destruct Hin as [[mq xq] [Hq Hin]]; simpl in Hq;
+      injection Hq as Hq1 Hq2; subst mq; rewrite He in Hq2; simpl in Hq2;
+      pose proof (IH (m, xq) Hin) as IHq; simpl in IHq.
+    + rewrite Hs in Hq2. subst. apply hide_hidden.
+    + rewrite Hs in Hq2. subst. apply IHq. assumption.
+    + rewrite Hm in Hq2.
+      destruct xq as [s|z0|b|t|fs0|o|o|o|o|l]; subst y; try (simpl in Hk; discriminate).
+      * apply IHq. exact Hz.
+      * apply IHq. exact Hz.
+      * destruct o as [y0|]; [|discriminate]. destruct (kind_of y0); discriminate.
+    + rewrite Hm in Hq2.
+      destruct xq as [s|z0|b|t|fs0|o|o|o|o|l]; try discriminate.
+      destruct o as [y0|]; [|discriminate].
+      destruct (kind_of y0) eqn:K0; try (injection Hq2 as Hq2; subst; rewrite K0 in Hk; discriminate).
+      injection Hq2 as Hq2. subst y. apply IHq. simpl. constructor. exact Hz.
   - inversion S; subst. eapply IH; eassumption.
-  - rewrite Forall_forall in IH. inversion S as [| | |l' y z Hin Hz| |]; subst.
+  - rewrite Forall_forall in IH. inversion S as [| | | | |l' y z Hin Hz| |]; subst.
     apply in_map_iff in Hin. destruct Hin as [q [<- Hin]]. eapply IH; eassumption.
-  - rewrite Forall_forall in IH. inversion S as [| | | |l' k y z Hin Hz|]; subst.
+  - rewrite Forall_forall in IH. inversion S as [| | | | | |l' k y z Hin Hz|]; subst.
     unfold map_snd in Hin. apply in_map_iff in Hin. destruct Hin as [q [Hq Hin]]. inversion Hq; subst.
     eapply IH; eassumption.
   - inversion S; subst. eapply IH; eassumption.
 Qed.
 
-Lemma erase_scrub : forall v c, erase (scrub c v) = erase v.
+Lemma erase_scrub : forall v, erase (scrub v) = erase v.
 Proof.
-  induction v as [s|z|b|t|fs IH| |y IH| |l IH| |l IH| |y IH|l IH] using gv_ind'; intros c; simpl; try reflexivity.
+  induction v as [s|z|b|t|fs IH| |y IH| |l IH| |l IH| |y IH|l IH] using gv_ind'; simpl; try reflexivity.
   - f_equal. rewrite map_map. apply map_ext_in. intros [m x] Hin. simpl.
-    rewrite Forall_forall in IH.
-    destruct (f_exported m); simpl; [|reflexivity].
-    destruct (has_secure (f_tag m)); [reflexivity|].
-    f_equal. apply (IH (m, x) Hin).
+    rewrite Forall_forall in IH. pose proof (IH (m, x) Hin) as IHx. simpl in IHx.
+    destruct (f_exported m); simpl.
+    + destruct (has_secure (f_tag m)); [reflexivity|]. f_equal. exact IHx.
+    + destruct (f_embedded m); [|reflexivity].
+      destruct x as [s|z0|b|t|fs0|o|o|o|o|l0]; try reflexivity.
+      * f_equal. exact IHx.
+      * destruct o as [y0|]; [|reflexivity]. destruct (kind_of y0) eqn:K; try (rewrite K; reflexivity).
+        (* scrub keeps the kind *)
+        assert (K' : kind_of (scrub y0) = KStruct) by (destruct y0; try discriminate; reflexivity).
+        rewrite K'. simpl in IHx. injection IHx as IHx. rewrite IHx. reflexivity.
   - rewrite IH. reflexivity.
   - f_equal. f_equal. rewrite map_map. apply map_ext_in. intros x Hin.
     rewrite Forall_forall in IH. apply IH. assumption.
@@ -320,14 +327,19 @@ Proof.
   induction v as [s|z|b|t|fs IH| |y IH| |l IH| |l IH| |y IH|l IH] using gv_ind'; intros B x S; simpl in B;
     try (inversion S; fail).
   - rewrite Forall_forall in IH. rewrite forallb_forall in B.
-    inversion S as [fs' m y Hin He Hs | fs' m y z Hin He Hs Hz | | | |]; subst.
-    + specialize (B (m, x) Hin). simpl in B. rewrite He, Hs in B. simpl in B. apply hiddenb_spec. assumption.
-    + specialize (B (m, y) Hin) as B'. simpl in B'. rewrite He, Hs in B'. simpl in B'.
-      apply (IH (m, y) Hin B' x Hz).
+    inversion S as [fs' m y Hin He Hs | fs' m y z Hin He Hs Hz | fs' m y z Hin He Hm Hk Hz
+                    | fs' m y z Hin He Hm Hk Hz | | | |]; subst;
+      pose proof (B _ Hin) as B'; simpl in B'; rewrite He in B'; simpl in B'; pose proof (IH _ Hin) as IHq; simpl in IHq.
+    + rewrite Hs in B'. apply hiddenb_spec. assumption.
+    + rewrite Hs in B'. apply (IHq B' x Hz).
+    + rewrite Hm in B'. destruct y as [s|z0|b|t|fs0|o|o|o|o|l0]; try discriminate.
+      * inversion Hz.
+      * apply (IHq B' x Hz).
+    + rewrite Hm, Hk in B'. apply IHq; [exact B' | constructor; exact Hz].
   - inversion S; subst. apply IH; assumption.
-  - rewrite Forall_forall in IH. rewrite forallb_forall in B. inversion S as [| | |l' y z Hin Hz| |]; subst.
+  - rewrite Forall_forall in IH. rewrite forallb_forall in B. inversion S as [| | | | |l' y z Hin Hz| |]; subst.
     apply (IH y Hin (B y Hin) x Hz).
-  - rewrite Forall_forall in IH. rewrite forallb_forall in B. inversion S as [| | | |l' k y z Hin Hz|]; subst.
+  - rewrite Forall_forall in IH. rewrite forallb_forall in B. inversion S as [| | | | | |l' k y z Hin Hz|]; subst.
     apply (IH (k, y) Hin (B (k, y) Hin) x Hz).
   - inversion S; subst. apply IH; assumption.
 Qed.
@@ -336,10 +348,16 @@ Lemma scrubbedb_complete : forall v, (forall x, sec_at v x -> hidden x) -> scrub
 Proof.
   induction v as [s|z|b|t|fs IH| |y IH| |l IH| |l IH| |y IH|l IH] using gv_ind'; intros H; simpl; try reflexivity.
   - rewrite Forall_forall in IH. rewrite forallb_forall. intros [m x] Hin. simpl.
-    destruct (f_exported m) eqn:He; simpl; [|reflexivity].
-    destruct (has_secure (f_tag m)) eqn:Hs.
-    + apply hiddenb_spec. apply H. eapply SA_here; eassumption.
-    + apply (IH (m, x) Hin). intros y Hy. apply H. eapply SA_field; eassumption.
+    pose proof (IH (m, x) Hin) as IHx. simpl in IHx.
+    destruct (f_exported m) eqn:He; simpl.
+    + destruct (has_secure (f_tag m)) eqn:Hs.
+      * apply hiddenb_spec. apply H. eapply SA_here; eassumption.
+      * apply IHx. intros y Hy. apply H. eapply SA_field; eassumption.
+    + destruct (f_embedded m) eqn:Hm; [|reflexivity].
+      destruct x as [s|z0|b|t|fs0|o|o|o|o|l0]; try reflexivity.
+      * apply IHx. intros y Hy. apply H. eapply SA_embed; try eassumption. reflexivity.
+      * destruct o as [y0|]; [|reflexivity]. destruct (kind_of y0) eqn:K; try reflexivity.
+        simpl in IHx. apply IHx. intros y Hy. inversion Hy; subst. apply H. eapply SA_embed_ptr; eassumption.
   - apply IH. intros x Hx. apply H. constructor. assumption.
   - rewrite Forall_forall in IH. rewrite forallb_forall. intros x Hin. apply (IH x Hin).
     intros y Hy. apply H. eapply SA_slice; eassumption.
@@ -358,7 +376,7 @@ Definition struct_ptr (v : gv) : bool :=
 Theorem secure_computes_scrub : forall v, wf v = true ->
   secure v = match v with
              | VPtr None => OOk v
-             | _ => if struct_ptr v then OOk (scrub false v) else OErr
+             | _ => if struct_ptr v then OOk (scrub v) else OErr
              end.
 Proof.
   intros v W. destruct v as [s|z|b|t|fs|o|o|o|o|l]; try reflexivity.
@@ -370,16 +388,16 @@ Qed.
 
 (* what the struct holding an `any` field (Action.Req, Attempt.Resp) gets back for it *)
 Theorem secure_iface_field_computes_scrub : forall v, wf v = true -> nilable v = true ->
-  secure_iface_field v = Ok (scrub false v).
+  secure_iface_field v = Ok (scrub v).
 Proof.
   intros v W N. unfold secure_iface_field.
   destruct (level_correct (S (depth v))) as [Hp _]. apply Hp; [assumption | lia | assumption].
 Qed.
 
 (* C17, scrubbing: for EVERY well-formed Go value (any nesting of structs, pointers, slices, maps, interfaces,
-   arrays, any tags, exported or not), clone.Secure neither panics nor runs out of levels; on a pointer to a
-   struct it returns a value in which every exposed secure-tagged field is "[secret hidden]"/zero and which
-   differs from the argument at most inside secure-tagged (or unexported) fields; on anything else but a nil
+   arrays, any tags, exported or not, embedded or not), clone.Secure neither panics nor runs out of levels; on a
+   pointer to a struct it returns a value in which every exposed secure-tagged field is "[secret hidden]"/zero
+   and which differs from the argument at most inside exposed secure-tagged fields; on anything else but a nil
    pointer it returns the error and touches nothing. *)
 Theorem secure_scrubbed : forall v, wf v = true ->
   match secure v with
@@ -393,8 +411,8 @@ Proof.
   destruct o as [x|].
   - destruct (kind_of x) eqn:K; simpl; try (split; [reflexivity | discriminate]).
     split; [|split].
-    + intros y Hy. apply (scrub_sec_hidden (VPtr (Some x)) false y). exact Hy.
-    + apply (erase_scrub (VPtr (Some x)) false).
+    + intros y Hy. apply (scrub_sec_hidden (VPtr (Some x)) y). exact Hy.
+    + apply (erase_scrub (VPtr (Some x))).
     + left. reflexivity.
   - split; [|split].
     + intros y Hy. inversion Hy.
